@@ -261,6 +261,12 @@ int KSI_TlvElement_serialize(const KSI_TlvElement *element, unsigned char *buf, 
 	}
 
 
+	/* The payload has to fit the 16 bit length field. */
+	if ((opt & KSI_TLV_OPT_NO_HEADER) == 0 && dat_len > 0xffff) {
+		res = KSI_INVALID_FORMAT;
+		goto cleanup;
+	}
+
 	/* Calculate the header length. */
 	hdr_len = HDR_LEN(element->ftlv.tag, dat_len);
 
